@@ -148,6 +148,16 @@ def corpus(tier):
                 for pat in pats:
                     vs = ', '.join('V%d%s%s' % (i, ('(u8)' if payload and i % 2 == 0 else ''), '' if d is None else ' = %d' % d) for i, d in enumerate(pat))
                     out.append('#[derive(Educe)] %s#[educe(%s)] enum Ty { %s }' % ('#[repr(i8)] ' if payload else '', ts, vs))
+    # wide tuple variants / tuple structs with one position ignored (or handled by a method), next to the same item with nothing ignored: anything remembered per
+    # field position (binding names, ranks, indices) from one expansion shows in the next
+    for width in (5, 6, 7, 11):
+        for tl, ign in (('PartialEq', 'PartialEq(ignore)'), ('Hash', 'Hash(ignore)'), ('PartialEq, PartialOrd', 'PartialOrd(ignore)'), ('PartialEq, Eq, PartialOrd, Ord', 'Ord(ignore)'),
+                        ('Debug', 'Debug(ignore)'), ('Clone', 'Clone(method(m))')):
+            for pos in sorted({0, 3, 4, width - 2, width - 1, None}, key=lambda x: -1 if x is None else x):
+                fs = ', '.join(('#[educe(%s)] u8' % ign) if k == pos else 'u8' for k in range(width))
+                out.append('#[derive(Educe)] #[educe(%s)] enum Ty { V(%s), W }' % (tl, fs))
+                if width in (5, 7):
+                    out.append('#[derive(Educe)] #[educe(%s)] struct Ty(%s);' % (tl, fs))
     seen, uniq = set(), []
     for t in out:
         if t not in seen:
